@@ -318,7 +318,7 @@ func genD6Shape(rt *rapid.T) []byte {
 	if uni(rt, 5, "prefix") == 0 {
 		return []byte{0, 0, 0}
 	}
-	a := pick[byte](rt, "ask", 0, 0, 1, 1, 2, 3) | bits(rt, "flow", 30, 25)<<2 | byte(drawWeighted(rt, []int{30, 14, 8, 12, 10, 8, 8, 10}, "history"))<<4 | bits(rt, "hints", 30)<<7
+	a := pick[byte](rt, "ask", 0, 0, 1, 1, 2, 3) | bits(rt, "flow", 30, 25)<<2 | byte(drawWeighted(rt, []int{24, 13, 10, 12, 10, 10, 10, 11}, "history"))<<4 | bits(rt, "hints", 30)<<7
 	b := pick[byte](rt, "time", 0, 0, 0, 1, 2, 2, 3)<<0 | bits(rt, "short", 30)<<2 | pick[byte](rt, "others", 0, 0, 0, 1, 2, 3)<<3 | bits(rt, "clientB", 25)<<5
 	return []byte{1, a, b}
 }
